@@ -8,8 +8,9 @@ PROP = {
                                                                  # when several broker checks run concurrently
     "search_s": 300,
     "assumptions": [
-        "non-ordered mode only (enable_ordered_proxy = true is not modelled; there replace_failed_proxy stops after "
-        "takeover_master, whose theorems apply)",
+        "both modes of MetaStore are modelled (enable_ordered_proxy = false / true; a history of an ordered-mode broker starts with the pseudo-operation Op.setOrdered, see notes/ordered.md); about a quarter of the generated cases run MetaStore::new(true); in ordered mode replace_failed_proxy is takeover_master plus a second epoch bump and Ok(None): "
+        "C06_failover / FailoverClauses carry the mode-dependent clause (failed mark vs. untouched failed set), "
+        "C06_failover_ordered and C06_e_repeat_failover_ordered are the ordered-mode statements",
         "HashMap-order dependent allocation choices (replacement proxy, new chunks) are fed from the implementation "
         "and validated by the model's allowed-set check; every C06 theorem holds for every choice, allowed or not",
         "C06_failover_run / C06_epochs_run have one premise left: every prefix of the history keeps every cluster at "
